@@ -10,9 +10,11 @@ import (
 type impl struct {
 	w   *world
 	cur *built
+	lay string // layout of the case's package ("" = the plain single-file package of `gso def`)
+	pre *Def   // the definition of the last `gso def` (the previous one for a following `gso regen`)
 }
 
-func (m *impl) Reset() { m.cur = nil }
+func (m *impl) Reset() { m.cur, m.lay, m.pre = nil, "", nil }
 
 func (m *impl) Exec(line string) string {
 	ws := strings.Fields(line)
@@ -31,12 +33,49 @@ func (m *impl) Exec(line string) string {
 	if len(ws) < 2 {
 		return "bad-op"
 	}
-	if ws[1] == "def" {
+	if ws[1] == "layout" {
+		l, ok := parseLayout(strings.Join(ws[2:], " "))
+		if !ok {
+			return "bad-op"
+		}
+		m.lay, m.cur, m.pre = l.String(), nil, nil
+		return strings.Join(ws[1:], " ")
+	}
+	if ws[1] == "regen" {
+		// the struct's tags are edited to this definition and the generator runs again over its
+		// previous output; from here on the case talks to the code of THAT run
 		d, err := parseDefLine(line)
 		if err != nil {
 			m.cur = nil
 			return "bad-op"
 		}
+		lay := m.lay
+		if lay == "" {
+			lay = defaultLayout
+		}
+		m.cur = m.w.getHist(lay, m.pre, d)
+		m.pre = d
+		if m.cur.status != "ok" {
+			return m.cur.status
+		}
+		return strings.Join(append([]string{"ok"}, m.cur.names...), " ")
+	}
+	if ws[1] == "def" && m.lay != "" {
+		d, err := parseDefLine(line)
+		if err != nil {
+			m.cur, m.pre = nil, nil
+			return "bad-op"
+		}
+		m.cur, m.pre = nil, d // queries before a `regen` are served lazily (see below)
+		return m.w.getGen0(m.lay, d).answer()
+	}
+	if ws[1] == "def" {
+		d, err := parseDefLine(line)
+		if err != nil {
+			m.cur, m.pre = nil, nil
+			return "bad-op"
+		}
+		m.pre = d
 		m.cur = m.w.get(d)
 		if m.cur.status != "ok" {
 			return m.cur.status
@@ -47,6 +86,10 @@ func (m *impl) Exec(line string) string {
 		return "bad-op"
 	}
 	op, raw, rest := ws[1], ws[2], ws[3:]
+	if m.cur == nil && m.lay != "" && m.pre != nil {
+		// a laid-out package that was generated once and not edited
+		m.cur = m.w.getHist(m.lay, nil, m.pre)
+	}
 	if m.cur == nil || m.cur.status != "ok" {
 		return "no-sorter"
 	}
